@@ -7,7 +7,21 @@
    under output.reverseAttributes) while keeping the first position; values appear verbatim between the
    configured quotes (braces for expressions), a name without value gets an empty value, boolean
    attributes expand to name="name" or the compact form, implied attributes without value are dropped,
-   names are mapped through markup.attributes. *)
+   names are mapped through markup.attributes.
+
+   What is proved for ALL inputs: the merge rules (C03_merge_...), the output decision table (C03_attr_out_...,
+   C03_implied_dropped), and -- character level, over the written grammar stated further down -- the parse of
+   every element's text into exactly its written mentions (C03_element_attributes_text), the whole pipeline
+   for one element (C03_element_markup_parse, C03_expand_element_text: expand = `<name` + merged mentions
+   through the output table + `>` ...), and for whole flat statements e1 op e2 ... (C03_statement_markup_parse:
+   every place of the resolved tree carries its own element's merged mentions; C03_statement_expand: the
+   output with formatting off).  Elements are parser blocks of C01 (C03_element_is_block / _gblock /
+   _group_unit).
+   Not covered by a theorem (correspondence + oracles of harness/props/c03.py only): `$` numbering and
+   `${..}` fields inside names and values, a backslash outside quotes / braces, bare quoted attributes
+   `["x"]`, value-less shorthands (`a.`), the jsx shorthand `.{e}`, names that are snippets / lorem / label
+   (snippet resolution: C14), statements with groups or repeaters at text level (token level: C01/C02),
+   the haml / pug / slim formatters (C15) and the line layout with formatting on (C12). *)
 From Coq Require Import String.
 From Emmet Require Import lib.Base lib.StrLit model.MarkupTokenizer model.MarkupParser model.MarkupConvert
      model.MarkupResolve model.OutStream model.FormatHtml proofs.AttrProofs proofs.AttrParseProofs
